@@ -58,13 +58,16 @@ RawRowFails(e) ==
       IdemOK(k) == e.rt2[k] = e.rt[k]
       \* the colour made from the raw value has the channels the layout assigns to it
       ChanOK(k) == t.kind = "bin" \/ ObsCol(t, e, k) = Unpack(t, X(k))
-      AllOK(k)  == MaskOK(k) /\ IdemOK(k) /\ ChanOK(k)
+      \* colour -> raw -> colour is the identity for the colour made from this raw value (PartialEq of the library)
+      BackOK(k) == e.beq[k] = 1
+      AllOK(k)  == MaskOK(k) /\ IdemOK(k) /\ ChanOK(k) /\ BackOK(k)
       K == 1..e.n
   IN
   IF e.base + e.n > 2 ^ t.raw THEN [codes |-> {"malformed_rawrow"}, k |-> 0]
   ELSE IF \A k \in K : AllOK(k) THEN [codes |-> {}, k |-> 0]
   ELSE [codes |-> (IF \A k \in K : MaskOK(k) THEN {} ELSE {"raw_roundtrip"})
              \cup (IF \A k \in K : IdemOK(k) THEN {} ELSE {"raw_not_idempotent"})
-             \cup (IF \A k \in K : ChanOK(k) THEN {} ELSE {"raw_channels"}),
+             \cup (IF \A k \in K : ChanOK(k) THEN {} ELSE {"raw_channels"})
+             \cup (IF \A k \in K : BackOK(k) THEN {} ELSE {"colour_from_raw_roundtrip_not_identity"}),
         k |-> LET B == {k \in K : ~AllOK(k)} IN CHOOSE k \in B : \A j \in B : k <= j]
 =============================================================================
